@@ -24,6 +24,12 @@ func addrOf(kind, id uint64) netip.Addr {
 		b[0] = 0xfd
 		binary.BigEndian.PutUint64(b[8:], id)
 		return netip.AddrFrom16(b)
+	case 3: // IPv4-mapped IPv6
+		var b [16]byte
+		b[10], b[11] = 0xff, 0xff
+		binary.BigEndian.PutUint32(b[12:], uint32(id))
+		b[12] = 127
+		return netip.AddrFrom16(b)
 	}
 	return netip.Addr{}
 }
